@@ -17,7 +17,8 @@ user's own) plus 1-3 operations, each with at most one injected fault:
 Oracle, after every operation (dry runs included), whatever it returned or raised:
   * repo-unchanged: snapshot before == after — rev-parse HEAD, symbolic-ref HEAD, all refs with their targets (branches,
     tags, stash), worktree list --porcelain, status --porcelain=v2 (untracked files listed), ls-files -s, stash list, SHA-1
-    and mode of every file in the working tree (and in the user's own linked worktrees), `git config --local --list`;
+    and mode of every file in the working tree (and in the user's own linked worktrees), `git config --local --list`,
+    .git/FETCH_HEAD;
   * no-temp-left: the case-private `tempfile.tempdir` holds no griffe-worktree-* entry;
   * objects-usable (load_git success only): for every module / class / function of the returned tree, `.source` — read after
     the checkout is gone — equals `git show R:<path>` sliced by the object's span (dedented), and is not empty. With
@@ -127,6 +128,13 @@ def _hash_tree(root: Path, out: dict, prefix: str) -> None:
             out[f"{prefix}{os.path.normpath(os.path.join(rel_dir, fn))}"] = f"{h}:{stat.S_IMODE(st.st_mode):o}"
 
 
+def _read_or_none(path: Path):
+    try:
+        return hashlib.sha1(path.read_bytes()).hexdigest()
+    except OSError:
+        return None
+
+
 def snapshot(info) -> dict:
     repo = info["repo"]
     refs = G.git(repo, "for-each-ref", "--format=%(refname) %(objectname)").splitlines()
@@ -148,6 +156,7 @@ def snapshot(info) -> dict:
         "index": G.git(repo, "ls-files", "-s").splitlines(),
         "stash": G.git(repo, "stash", "list").splitlines(),
         "config": G.git(repo, "config", "--local", "--list").splitlines(),
+        "FETCH_HEAD": _read_or_none(Path(repo) / ".git" / "FETCH_HEAD"),
         "files": files,
     }
 
@@ -627,6 +636,10 @@ def check_case(case) -> list[Fail]:
                     classes.append("preexisting-griffe-branch")
                 if op.get("user_wt"):
                     classes.append(f"user-worktree-dir-named-like:{op['user_wt']}")
+                if plan["ref_commit"] is not None:
+                    classes.append("commit-message-at-ref:" + ("ascii", "utf-8", "raw-latin-1", "very-long", "multi-line", "control-chars")[case["commits"][plan["ref_commit"]].get("msg", 0) % 6])
+                if op["op"] == "check" and plan["against_none"]:
+                    classes.append("check:latest-tag:" + ("no-local-tag" if not info.get("local_tags") else "has-tags") + (":clone" + ("+upstream-moved" if case.get("upstream_after") else "") if info.get("clone") else ""))
                 if info.get("clone"):
                     classes.append(f"clone:{info['clone']}")
                     if op["ref"][0] in ("branch", "slashed") and plan["ref_commit"] is None and plan["ref"] in info["branches"]:
